@@ -609,7 +609,14 @@ pub fn c19_atomicity(ctx: &Ctx) -> SearchReport {
             }));
         }
         let t0 = Instant::now();
-        for v in 1..=rounds {
+        let mut v = 0u64;
+        loop {
+            v += 1;
+            // fixed work, extended (up to 10x) until enough replies overlapped a transaction
+            let enough = overlapped.load(Ordering::Relaxed) >= 50;
+            if (v > rounds && enough) || v > rounds * 10 {
+                break;
+            }
             if violation.lock().unwrap().is_some() || t0.elapsed() > Duration::from_secs(120) {
                 break;
             }
